@@ -38,9 +38,13 @@ def gaps (lenient : Bool) (input : Bytes) : Nat → List Token → Bytes
 def covered (lenient : Bool) (input : Bytes) (toks : List Token) : Bool :=
   (gaps lenient input 0 toks).all (· == 0x20)
 
+/-- Offsets of the LF bytes of `rest`, which starts at offset `i`. -/
+def lfOffsetsFrom : Nat → Bytes → List Nat
+  | _, [] => []
+  | i, c :: t => if c == 0x0A then i :: lfOffsetsFrom (i + 1) t else lfOffsetsFrom (i + 1) t
+
 /-- Offsets of the LF bytes of the input. -/
-def lfOffsets (input : Bytes) : List Nat :=
-  (input.zipIdx.filter (fun p => p.1 == 0x0A)).map (·.2)
+def lfOffsets (input : Bytes) : List Nat := lfOffsetsFrom 0 input
 
 def newlineOffsets (toks : List Token) : List Nat :=
   (toks.filter (fun t => t.ty == .newline)).map (·.pos.off)
